@@ -6,7 +6,7 @@ objects, which one is current/parked) updated by the rules written in the statem
 from ksym.core import Ctx, And, Or, Not, ArgSort, ValSort, PathPruned, Inconclusive
 
 OPS = ('set', 'del', 'pop', 'aset', 'adel', 'dump', 'dumpk', 'load', 'loadk', 'sync', 'syncclear',
-       'off', 'on', 'open', 'drop')
+       'off', 'on', 'open', 'drop', 'assign')
 
 
 def same_dict(real, want):
@@ -104,6 +104,8 @@ class Sync:
                     c.open(b)
                 elif op == 'drop':
                     c.drop()
+                elif op == 'assign':
+                    c.archive = b          # what the decorators' f.archive(b) does
             except (PathPruned, Inconclusive):
                 raise
             except Exception as e:
@@ -155,7 +157,7 @@ class Sync:
                     cur, parked = parked, None
                 elif cur is None:
                     want_exc = ValueError
-            elif op == 'open':
+            elif op in ('open', 'assign'):
                 cur, parked = 'b', None
             elif op == 'drop':
                 if parked is None and cur is None:
